@@ -99,11 +99,17 @@ fn default_heartbeat() -> u16 {
     if d == 0 { 0 } else { d.min(600) }
 }
 
+// likewise for channel_max: 0 means no limit of the client's own, the broker's 2047 is announced
+fn default_channel_max() -> u16 {
+    let d = crate::ConnectionOptions::<crate::Auth>::default().channel_max;
+    if d == 0 { 2047 } else { d.min(2047) }
+}
+
 #[test]
 fn verif_e2e_c19_the_attempt_uses_what_the_url_spells_out() {
     let plain = |u: &str, p: &str| format!("\u{0}{}\u{0}{}", u, p);
     let s = attempt("", "");
-    assert_eq!(s, Seen { mechanism: "PLAIN".into(), response: plain("guest", "guest"), virtual_host: "/".into(), heartbeat: default_heartbeat(), channel_max: 2047 });
+    assert_eq!(s, Seen { mechanism: "PLAIN".into(), response: plain("guest", "guest"), virtual_host: "/".into(), heartbeat: default_heartbeat(), channel_max: default_channel_max() });
     let s = attempt("/", "");
     assert_eq!(s.virtual_host, "/");
     let s = attempt("/v%2fhost?heartbeat=7&channel_max=9", "us%40er:p%3Ass@");
@@ -111,7 +117,7 @@ fn verif_e2e_c19_the_attempt_uses_what_the_url_spells_out() {
     let s = attempt("/prod?channel_max=0&heartbeat=0", "alice@");
     assert_eq!(s, Seen { mechanism: "PLAIN".into(), response: plain("alice", "guest"), virtual_host: "prod".into(), heartbeat: 0, channel_max: 2047 });
     let s = attempt("?heartbeat=3000", ":secret@");
-    assert_eq!(s, Seen { mechanism: "PLAIN".into(), response: plain("guest", "secret"), virtual_host: "/".into(), heartbeat: 600, channel_max: 2047 });
+    assert_eq!(s, Seen { mechanism: "PLAIN".into(), response: plain("guest", "secret"), virtual_host: "/".into(), heartbeat: 600, channel_max: default_channel_max() });
     let s = attempt("/x?auth_mechanism=external", "user:pass@");
     assert_eq!((s.mechanism.as_str(), s.virtual_host.as_str()), ("EXTERNAL", "x"));
     assert!(!s.response.contains("user") && !s.response.contains("pass"), "EXTERNAL carries no credentials: {:?}", s.response);
